@@ -68,6 +68,16 @@ def check_arghandler(run, f, rule='R5'):
             defs = [d for (nm, d) in IN.get(node.id, ()) if nm == val.id]
             if len(defs) == 1 and isinstance(cfg.nodes[defs[0]].ast, ast.Assign):
                 origin = cfg.nodes[defs[0]].ast.value
+        # the stored container is a list of this object alone (a literal, a comprehension, a copy): storing another object's
+        # `data` attribute itself makes two objects share one list, so append / insert / []= on one changes the other
+        if isinstance(origin, ast.Attribute) and origin.attr == 'data':
+            run.violation(rule, f.key, 'container <- ' + src(origin, 50), 'the list object %s of another instance is stored by reference: '
+                          'the new object and the source share one list, so a later append/insert/item assignment on either of them '
+                          'changes both' % src(origin, 40), f=f, node=a)
+        elif isinstance(origin, (ast.List, ast.ListComp)) or (isinstance(origin, ast.Call) and (
+                matches('copy(__)', canon(fi, origin)) is not None or matches('list(__)', canon(fi, origin)) is not None
+                or matches('_X.copy()', canon(fi, origin)) is not None)):
+            run.holds(rule, f.key, 'container <- ' + src(origin, 50), 'a list created for this object (literal / comprehension / copy)', f=f, node=a)
         # element expressions
         elems = []
         comp = None
